@@ -34,11 +34,12 @@ def groups(prop, seed, quick, modes=("",)):
         for mi, mode in enumerate(modes):
             js += jobs("%s%s" % (prop.lower(), mode), seed + 13 * mi, per, depth, nj if len(modes) == 1 else max(2, nj // len(modes)), pr, mode)
         g.append(("Trace_Locking.tla", "Trace_Locking_%s_pr%d.cfg" % (prop, pr), js))
+    # (45 blocks: long enough for the emission to halve to nothing, so that late exports see gas-only rewards and emptied validators)
     # every locking property spans restarts from an exported state: whole-application histories with export / import cycles, continued on
     # the imported chain, validated with the property's own slice (state lost, reset or invented by the import is reported under the
     # property it breaks, not only under C18)
     g.append(("Trace_Locking.tla", "Trace_Locking_%s_pr1.cfg" % prop,
-              [("%sreimp_%d" % (prop.lower(), j), ["reimport", "-n", 3 if quick else 12, "-depth", 30, "-seed", seed * 1000 + 300 + j, "-mode", "locking"]) for j in range(6 if quick else 8)]))
+              [("%sreimp_%d" % (prop.lower(), j), ["reimport", "-n", 3 if quick else 12, "-depth", 45, "-seed", seed * 1000 + 300 + j, "-mode", "locking"]) for j in range(6 if quick else 8)]))
     return g
 
 
